@@ -247,7 +247,9 @@ class Gen:
             s.err(body[ifs[0]], "grid_to_meshio: the mesh is generated before the first argument is read")
         top = body[ifs[0]]
         sigs = {}
-        base = {"ndim", "shape", "gridsize", "origin", "points", "cells", "args"}
+        base = {"ndim", "shape", "gridsize", "origin", "points", "cells", "args", "arg", "i"}
+        allowed += [st.target for st in body if isinstance(st, ast.For) and not st.orelse
+                    and (st is loops[0] or (is_name(st.iter, "args") and is_name(st.target, "arg")))]
         tracked = set(base)
         for nd, stmts in ((2, top.body), (3, top.orelse)):
             tag = f"{nd}d"
